@@ -212,7 +212,7 @@ def check_response_value(ctx, fx, f, b, sb, s, inst):
             kinds.add("unit" if is_unit else "constant")
         else:
             kinds.add(o.kind)
-    is_ping = f["def"].endswith("::ping::{closure#0}") or "::ping::" in sb.name
+    is_ping = f["def"].endswith("::ping::{closure#0}") or "::ping::" in sb.name or loops.is_ping_payload(fx, sb.name)
     want = {"unit"} if is_ping else {"handler-result"}
     ctx.require(kinds == want, "R02.1", inst + ":response-value", "the response must be exactly the awaited result of this message's handler invocation: got %s" % sorted(kinds), fn=sb.name, site=s["t"]["l"], detail=sorted(kinds))
 
